@@ -195,7 +195,13 @@ pub fn c03_scenario(seed: u64, idx: u64) -> Scenario {
         let (via, l) = files[rng.below(files.len())].clone();
         let rv = range_value(l, &mut rng);
         let hname = *rng.pick(&["Range", "Range", "Range", "range", "RANGE"]);
-        sc.conns.push(Conn::simple(i, if overlapped { 0 } else { i as u32 }, req("GET", &via, &[(hname, &rv)], b""), "range"));
+        let mut hs: Vec<(&str, &str)> = vec![(hname, &rv)];
+        // a validator the server may or may not know: either answer (206 slice, 200 whole file) is fine
+        let if_range = *rng.pick(&["1600000000000000000", "\"1600000000000000000\"", "0", "1", "\"abc\"", "W/\"abc\"", "Wed, 21 Oct 2015 07:28:00 GMT", "Fri, 01 Jan 2038 00:00:00 GMT", "garbage", ""]);
+        if rng.chance(1, 5) {
+            hs.push(("If-Range", if_range));
+        }
+        sc.conns.push(Conn::simple(i, if overlapped { 0 } else { i as u32 }, req("GET", &via, &hs, b""), "range"));
     }
     sc
 }
